@@ -19,6 +19,7 @@ into `preProcessInverted` = "a non-nil value is type-asserted") is written in th
 -/
 import SemaModel.C02.Model
 import SemaModel.Generated.IndexOp
+import SemaModel.Generated.InvertedSearch
 namespace Sema.C02
 open Sema
 open Sema.Gen.IndexOp
@@ -117,5 +118,58 @@ example :
     getOperation (fun _ => "") gp () "a" [1#8] [1#8, 2#8] =
       (.val (.int 1#64), .val (.int 2#64), "update", none) := by
   simp [getOperation, getProp, Val.query, ofOpt, Go.Any.isNil, List.find?]
+
+/-! ## the operator dispatch of `IndexInverted[T].Search`
+
+`SemaModel/Generated/InvertedSearch.lean` holds one definition per *arm* of `switch operator { … }` for the five
+range operators (fragments selected by their case label): what the arm does to the variables
+`start`, `end`, `inclusive` that the common tail hands to `bucket.RangeScan(start, end, inclusive, …)`.
+`T` is a type parameter, `toByteSortable` (generic, type switch) and the `%v` text of a `T` are abstract
+parameters; here `toByteSortable v = .ok (o.key v)` (the model's key function is total; for the three
+instances it *is* the generated `toByteSortable_*`).  `var start, end []byte` are nil before the switch: a
+variable an arm does not assign stays nil, which is the model's `none` bound — visible below as "the input
+value comes out unchanged, whatever it is".
+
+Not translated (blocking constructs, see notes/T1ext.md §7): the arms `equals` / `notEquals` / `startsWith`
+and the common tail (callbacks that assign the captured `sets`; `*roaring64.Bitmap`), the `switch` header
+itself (which label belongs to which operator string: `tools/facts_c02` pins that table), `defer`;
+`processChange` (writes through `*setCacheItem` pointers taken from a map: no value semantics). -/
+
+section
+open Sema.Gen.InvertedSearch
+variable {V : Type}
+
+/-- **which bounds and which inclusivity each operator scans with** -/
+theorem C02_tie_search_arms (o : Ops V) (fmtT : V → String) (q e : V) (s0 e0 : Bytes) (i0 : Bool) :
+    let tbs : V → Except String Bytes := fun v => .ok (o.key v)
+    Search_gt tbs fmtT (o.key q) e s0 e0 i0 = .ok (o.key q, e0, false) ∧
+    Search_ge tbs fmtT (o.key q) e s0 e0 i0 = .ok (o.key q, e0, true) ∧
+    Search_lt tbs fmtT (o.key q) e s0 e0 i0 = .ok (s0, o.key q, false) ∧
+    Search_le tbs fmtT (o.key q) e s0 e0 i0 = .ok (s0, o.key q, true) ∧
+    Search_inRange tbs fmtT (o.key q) e s0 e0 i0 = .ok (o.key q, o.key e, true) :=
+  ⟨rfl, rfl, rfl, rfl, rfl⟩
+
+/-- the model's `search`, operator by operator, scans with exactly the values the arms produce (a bound the arm
+leaves alone — nil in Go — is `none`) -/
+theorem C02_tie_search_range (o : Ops V) (fmtT : V → String) (kv : KV) (q e : V) :
+    let tbs : V → Except String Bytes := fun v => .ok (o.key v)
+    let scan (r : Except String (Bytes × Bytes × Bool)) (hasStart hasEnd : Bool) : IdSet :=
+      match r with
+      | .ok (s, e', incl) => unionEntries (kv.rangeScan (if hasStart then some s else none) (if hasEnd then some e' else none) incl)
+      | .error _ => []
+    search o kv q e .gt = scan (Search_gt tbs fmtT (o.key q) e [] [] false) true false ∧
+    search o kv q e .ge = scan (Search_ge tbs fmtT (o.key q) e [] [] false) true false ∧
+    search o kv q e .lt = scan (Search_lt tbs fmtT (o.key q) e [] [] false) false true ∧
+    search o kv q e .le = scan (Search_le tbs fmtT (o.key q) e [] [] false) false true ∧
+    search o kv q e .inRange = scan (Search_inRange tbs fmtT (o.key q) e [] [] false) true true :=
+  ⟨rfl, rfl, rfl, rfl, rfl⟩
+
+/-- `inRange` with an end value that has no key: the error of the real function, nothing scanned -/
+theorem C02_tie_search_inRange_err (tbs : V → Except String Bytes) (fmtT : V → String) (qk : Bytes) (e : V) (s0 e0 : Bytes)
+    (i0 : Bool) (msg : String) (h : tbs e = .error msg) :
+    Search_inRange tbs fmtT qk e s0 e0 i0 = .error ("error converting value " ++ fmtT e ++ " to search: " ++ msg) := by
+  simp [Search_inRange, h]
+
+end
 
 end Sema.C02
